@@ -86,3 +86,19 @@ def tok_is(idx, val):
             return 'output %d: expected %s got %s' % (idx, val, toks[idx] if len(toks) > idx else None)
         return None
     return f
+
+
+def raw_is_identity_rep(idx):
+    """the raw coordinates at token idx are exactly the canonical representation (0 : 1 : 1 : 0) of the identity, limb by limb
+    (what explicit zeroisation has to leave behind, whatever representation the value had before)"""
+    def f(toks):
+        if len(toks) <= idx:
+            return 'missing output'
+        limbs = [int(x, 16) for x in toks[idx][1:].split(',')]
+        n = len(limbs) // 4
+        X, Y, Z, T = (limbs[i * n:(i + 1) * n] for i in range(4))
+        one = [1] + [0] * (n - 1)
+        if any(X) or any(T) or Y != one or Z != one:
+            return 'after zeroize the stored coordinates are not (0 : 1 : 1 : 0): %s' % toks[idx][:120]
+        return None
+    return f
